@@ -96,6 +96,15 @@ Theorem C04_values_are_mean_over_other_trains : forall (eps : R) (cy : bool) (mt
 Proof. exact directionality_values_mean. Qed.
 Print Assumptions C04_values_are_mean_over_other_trains.
 
+From PS Require Lem_Findings.
+(* KNOWN FINDING F13 as a theorem: the normalised spike-train order of two trains without spikes is
+   +1 by convention in BOTH argument orders (and for the mirrored input, which is the same input),
+   so the sign change under swap / time reversal fails for all-empty input *)
+Theorem C04_order_sign_change_refuted_for_empty_input : forall eps cy ts te mt m,
+  spike_train_order_bi ROps eps cy false true mt m ([], ts, te) ([], ts, te) = Ok 1.
+Proof. exact Lem_Findings.F13_order_of_empty_trains_not_antisymmetric. Qed.
+Print Assumptions C04_order_sign_change_refuted_for_empty_input.
+
 Example C04_nonvacuous : valid 0 1 [1/8; 1/2] /\ valid 0 1 [1/4; 7/8] /\ check_indices 4 [3; 0; 2]%nat = true.
 Proof. repeat split; try lra; valid_tac. Qed.
 
